@@ -43,7 +43,7 @@ PREFIXES = ('sdc.ctxt.loc:', '', 'sdc.ctxt.loc:/r/e?', 'sdc.ctxt.loc:/r/e?fac=')
 
 def obligations(tier):
     quick = tier == 'quick'
-    t = 90 if quick else 600
+    t = 150 if quick else 600
     obs = []
 
     # ---- (1) round trip
@@ -67,10 +67,13 @@ def obligations(tier):
                              + (f'; case split: {bind["nx"]} characters, first one index {bind["x0"]}' if 'x0' in bind else ''),
                       claim='from_scope_string(scope_string) has the same root and the same six elements; the string is inside its own '
                             'location'))
-    obs.append(Ob('C16.roundtrip.presence', 'harness.C16', 'roundtrip_presence', timeout=t, functions=F_RT, stubs=S_MDIB[1:],
-                  bounds='all 64 present/absent combinations of the six elements x 4 roots (default, "my root", "r?&#=", "ä%+") x 2 value '
-                         'styles (plain; with space & = # ? %2F + ä / ;)',
-                  claim='same as above for every presence pattern and non-default roots'))
+    for ri in range(7):
+        obs.append(Ob(f'C16.roundtrip.presence.root{ri}', 'harness.C16', 'roundtrip_presence', bind={'root': ri}, timeout=t, functions=F_RT, stubs=S_MDIB[1:],
+                      bounds='all 64 present/absent combinations of the six elements x 7 roots (default, "my root", "r?&#=", "ä%+", "a/b", '
+                             '"http://hospital.example/locations", "/") x 2 value styles (plain; with space & = # ? %2F + ä / ;) x one '
+                             'element optionally given as the empty string',
+                      claim='same as above for every presence pattern and non-default roots; the round-trip result equals the original '
+                            '(same hash) and both are inside each other'))
 
     # ---- (2) published scopes
     for ident in (0, 1):
